@@ -152,6 +152,44 @@ fn gen_pair(rng: &mut Rng, f5: bool) -> Pair {
         let p2 = gen_prefix(rng, k, &s, &cfg);
         return Pair { cfg, p1: Vec::new(), p2, s };
     }
+    if rng.chance(1, 300) {
+        // Hash window of several KiB over image-like data (padding holes, level shifts);
+        // prefixes are padding of a different level, so the window sums of the two streams
+        // reach the common data from very different values.
+        let cfg = gen::gen_bigwindow_cfg(rng);
+        let slen = rng.urange(80_000, 300_000);
+        let mut s = gen::gen_source(rng, SrcClass::LevelShift, slen);
+        if rng.chance(1, 2) {
+            // Both streams are cut by the maximum size at the same place: S opens with a
+            // padding hole longer than max and one prefix is padding (of another level) of a
+            // whole number of max-sized chunks. The hash states then meet the common
+            // boundary with entirely different histories.
+            let hole = cfg.max + rng.urange(1, cfg.max);
+            let mut v = vec![*rng.pick(&[0u8, 0u8, 0xff, 0x80]); hole];
+            v.extend_from_slice(&s);
+            s = v;
+            let p2 = vec![*rng.pick(&[0x80u8, 0xff, 0xfe, 0x7f]); cfg.max * rng.urange(1, 3)];
+            let p1 = if rng.chance(1, 2) { Vec::new() } else { vec![*rng.pick(&[0u8, 0xff]); cfg.max * rng.urange(1, 2)] };
+            return Pair { cfg, p1, p2, s };
+        }
+        let mut mk = |rng: &mut Rng| -> Vec<u8> {
+            match rng.below(4) {
+                0 => Vec::new(),
+                1 => vec![*rng.pick(&[0u8, 0x80, 0xff]); rng.urange(1, 3 * cfg.window)],
+                2 => {
+                    let l = rng.urange(1, 2 * cfg.window);
+                    gen::gen_source(rng, SrcClass::LevelShift, l)
+                }
+                _ => {
+                    let l = rng.urange(1, 2 * cfg.window);
+                    rng.bytes(l)
+                }
+            }
+        };
+        let p1 = mk(rng);
+        let p2 = mk(rng);
+        return Pair { cfg, p1, p2, s };
+    }
     let mut cfg = gen::gen_small_cfg(rng);
     if cfg.algo != Algo::Fixed && rng.chance(1, 8) {
         // A configuration the CLI and the library accept although it is unusual: the hash
@@ -215,7 +253,7 @@ pub fn run(tier: Tier, seed: u64) -> i32 {
                     with_sync += 1;
                     if after >= 2 {
                         nontrivial.push(format!("{}:{}", i, pair.cfg.describe()));
-                        fams.insert(format!("{:?}/{}", pair.cfg.algo, if f5 { "f5class" } else if pair.cfg.window > pair.cfg.max { "window>max" } else { "general" }));
+                        fams.insert(format!("{:?}/{}", pair.cfg.algo, if f5 { "f5class" } else if pair.cfg.window > pair.cfg.max { "window>max" } else if pair.cfg.window >= 3000 { "window>=3000" } else { "general" }));
                     }
                 }
                 Ok(None) => {}
@@ -257,7 +295,7 @@ pub fn run(tier: Tier, seed: u64) -> i32 {
             "s_class_head": hex(&p.s[..p.s.len().min(16)]), "chunks_after_sync": format!("{:?}", r)}));
     }
     rep.finish(
-        "pairs of streams P1+S / P2+S (prefix kinds: empty, short, long, zero-ending, ending in S's own head, ending in S's first byte repeated, FixedSize-aligned; one rolling configuration in eight has window > max, which CLI and library accept; every fifth pair from the F5 class: P1 empty and S = window ending non-zero + zero run) chunked by the real chunker; after the first boundary common to both at S-position >= window all later boundaries must be equal; non-trivial = distinct pairs that have such a boundary and >= 2 chunks after it",
+        "pairs of streams P1+S / P2+S (prefix kinds: empty, short, long, zero-ending, ending in S's own head, ending in S's first byte repeated, FixedSize-aligned; one rolling configuration in eight has window > max, which CLI and library accept; one pair in 300 uses a window of 3000-20000 bytes over image-like data with padding holes; every fifth pair from the F5 class: P1 empty and S = window ending non-zero + zero run) chunked by the real chunker; after the first boundary common to both at S-position >= window all later boundaries must be equal; non-trivial = distinct pairs that have such a boundary and >= 2 chunks after it",
         &["metamorphic: no reference chunker involved; every second pair is also delivered under two different read schedules (short reads, Pending)"],
         json!({}),
         false,
